@@ -51,7 +51,14 @@ def c13_nontrivial(c, ms):
 CONFIG = dict(
     modules=["SigModel.Props.C13"],
     theorems=["SigModel.Backends." + t for t in [
-        "C13_reload_eq_fresh",
+        "C13_reload_eq_fresh", "C13_reload_total", "C13_reload_chain_total", "C13_static_answers_from_final",
+        "C13_static_configured_accepted", "C13_legacy_upsert_panics", "C13_legacy_order_differs",
+        "C13_etcd_eq_fresh", "C13_etcd_eq_fresh_sorted", "C13_etcd_answers_from_final",
+        "C13_etcd_deleted_not_accepted", "C13_etcd_moved_not_accepted",
+        "C13_facts", "C13_scheme_rule", "C13_static_meets_spec", "C13_etcd_meets_spec",
+    ]] + ["SigModel.RWLock." + t for t in [
+        "C13_lock_programs_flat", "C13_no_deadlock", "C13_api_no_deadlock", "C13_steps_bounded",
+        "C13_always_completes", "C13_mutual_exclusion", "C13_nested_rlock_deadlocks",
     ]],
     generated=["Backends"],
     harness=dict(pkg="signaling", test="TestVerifC13"),
